@@ -54,6 +54,20 @@ func ZZ_C20_Delaunay() {
 		}
 	}
 	n := len(pts)
+	if zz.Bound("REGION") == 1 {
+		// quick tier: the free point lies strictly inside the first base triangle (a conjunction of three
+		// orientation constraints); the thorough tier lets it range over the whole plane
+		a, b, c := base[0], base[1], base[2]
+		if orient(a, b, c) > 0 {
+			zz.Assume(orient(a, b, s) > 0.01)
+			zz.Assume(orient(b, c, s) > 0.01)
+			zz.Assume(orient(c, a, s) > 0.01)
+		} else {
+			zz.Assume(orient(a, b, s) < -0.01)
+			zz.Assume(orient(b, c, s) < -0.01)
+			zz.Assume(orient(c, a, s) < -0.01)
+		}
+	}
 	// general position with a margin: distinct, no three collinear, no four co-circular
 	eps := 1e-3
 	for i := 0; i < n; i++ {
